@@ -2,8 +2,10 @@
 # Re-runs every seeded change against the check of its property (quick tier) and prints one
 # line per change. Uses $VERIF_REPO (default /repo); each patch is undone straight afterwards.
 cd "$(dirname "$0")/.."
+# usage: tools/seeded_regress.sh [<extended regular expression on the change id>]
 for d in seeded/*/; do
   id=$(basename $d)
+  if [ -n "$1" ] && ! printf "%s" "$id" | grep -Eq "$1"; then continue; fi
   if python3 -c "import json,sys;sys.exit(0 if json.load(open('$d/meta.json')).get('status') in ('retired','missed') else 1)"; then echo "$id skipped: retired or known miss (see meta.json)"; continue; fi
   prop=$(python3 -c "import json;m=json.load(open('$d/meta.json'));print(m.get('check',m['property']))")
   out=$(python3 tools/seedtest.py $d/patch.diff $prop 2>&1)
